@@ -547,6 +547,65 @@ def positive_control(ctx):
         ctx.rep.broken('C04.R5 positive control: expected one signed and one unsigned byte index in %s, found %d/%d' % (p, bad, n - bad))
     ctx.rep.note('C04.R5 positive control: %d signed, %d unsigned byte index flows recognised in selftest/C04_R5_control.ll' % (bad, n - bad))
 
+# ---------------------------------------------------------------- R8
+
+CHARSPACE_MAX = (255, 256, 257)        # CSIZE and its neighbours
+
+def charspace_loops(prog_or_fns):
+    """[(function, branch, constant)] for every loop whose counter (a local incremented by one inside the loop) is compared
+    with the compile-time size of the character space instead of the run-time one"""
+    out = []
+    for f in prog_or_fns:
+        if not f.blocks: continue
+        res = ir.Resolver(f)
+        incs = {}
+        for x in f.ins:
+            if x.op != 'store': continue
+            l = res.loc(x.ops[1])
+            d = f.def_of(x.ops[0])
+            if l[0] == 'local' and d is not None and d.op == 'add' and ('int', 1) in d.ops:
+                o = d.ops[0] if d.ops[1] == ('int', 1) else d.ops[1]
+                dd = f.def_of(o)
+                if dd is not None and dd.op == 'load' and res.loc(dd.ops[0]) == l: incs.setdefault(l, []).append(x)
+        if not incs: continue
+        for b in f.blocks:
+            br = b.ins[-1]
+            if br.op != 'br' or not br.ops: continue
+            d = f.def_of(br.ops[0])
+            if d is None or d.op != 'icmp': continue
+            for k in (0, 1):
+                c = d.ops[k]; o = d.ops[1 - k]
+                if c[0] == 'int' and c[1] in CHARSPACE_MAX:
+                    dd = f.def_of(flow.strip_casts(f, o)) if o[0] == 'reg' else None
+                    if dd is not None and dd.op == 'load' and res.loc(dd.ops[0]) in incs:
+                        out.append((f, br, c[1]))
+    return out
+
+def r8(ctx):
+    """R8 (generator): loops over the character space are bounded by the run-time size of the character set
+    (ctrl.csize, numecs, a class length), never by the compile-time maximum CSIZE = 256: in a 7-bit scanner codes
+    128..255 do not exist, and a class operation that visits them makes flex demand -8 for a 7-bit-clean rule set or
+    emits transitions on characters the tables have no column for."""
+    rep = ctx.rep; P = ctx.flex
+    # positive control
+    pc = os.path.join(VERIF, 'selftest', 'C04_R8_control.ll')
+    if not os.path.exists(pc): rep.broken('positive control %s is missing' % pc)
+    hits = charspace_loops(ir.Module(pc).functions.values())
+    if [h[0].name for h in hits] != ['bad_loop']: rep.broken('C04.R8 positive control: expected exactly bad_loop, found %s' % [h[0].name for h in hits])
+    fns = [f for f in set(P.functions.values()) if f.blocks and f.file and not f.file.endswith(('scan.c', 'parse.c')) and 'stage' not in f.file and f.name != 'flexscan']
+    loops = 0
+    for f in fns:
+        cfg = P.cfg(f, cut=False)
+        loops += sum(1 for b in f.blocks if b.ins[-1].op == 'br' and b.ins[-1].ops and any(y.blk is b for y in cfg.reach(b.ins[-1])))
+    bad = charspace_loops(fns)
+    for f, br, c in bad:
+        rep.fail('C04.R8', 'C04.R8:%s:%s:loop-bounded-by-CSIZE' % (f.file, f.name), where(br),
+                 '%s() runs a counter up to the constant %d (the compile-time size of the character space) instead of ctrl.csize: in a 7-bit scanner it visits '
+                 'characters 128..255, which do not exist there' % (f.name, c), replay_input='%option 7bit\n%%\n[^"]{-}[\\\\\\n]  ;\n%%   (flex: scanner requires -8 flag)')
+    if not bad: rep.ok('C04.R8', 'census: none of the %d loop tests in %d generator functions compares its counter with CSIZE (positive control fired)' % (loops, len(fns)))
+    if loops < 150: rep.broken('C04.R8: only %d loop tests found in flex' % loops)
+    return 1
+
 # ---------------------------------------------------------------- driver
 
 def run(ctx):
@@ -568,6 +627,7 @@ def run(ctx):
         tot['R6'] += r6(ctx, sc, lex)
         tot['R7'] += r7(ctx, sc)
     n4 = r4(ctx)
+    r8(ctx)
     rep.require(backends == {'nr', 'r', 'cxx', 'c99', 'go'}, 'back ends analysed: %s' % sorted(backends))
     rep.setcount('variants_analysed', len(vs))
     for k, n in tot.items(): rep.setcount('instances_' + k, n)
@@ -580,6 +640,7 @@ def run(ctx):
     rep.require(tot['R7'] >= 3 * len(vs), 'C04.R7 matched %d loads of saved buffer state, 3 per variant expected (2 in yy_load_buffer_state, 1 in yylex)' % tot['R7'])
     for r in ('C04.R1', 'C04.R2', 'C04.R3', 'C04.R5', 'C04.R6', 'C04.R7'): rep.floor(r, 1, 'see instances_* counters')
     rep.floor('C04.R4', 3, 'ccladd, mkstate, check_char')
+    rep.floor('C04.R8', 1, 'census of generator loops')
     rep.undecided += ['behaviour of NUL relative to refills, back-ups and push-back for all inputs',
                       'the comparison operator of the NUL-versus-end test (<= in yylex, < in yyinput) - a value question',
                       'that the tables themselves have 256 columns in 8-bit mode (C01/C15)']
